@@ -114,9 +114,15 @@ def check(ctx):
     for qn in ("get_aggregate_predictions", "get_aggregate_prediction_intervals"):
         f = ctx.fn(BM, f"BootstrapElectionModel.{qn}")
         s = b.summarize(f, {"estimand": ("const", "margin")}, self_cls=bc)
-        au = am.non_classification_view(s.env.get("all_units"))
+        # the frame the dummies are built from (any local name): the first concat of unit frames in the function
+        dm = None
+        for _, _, t_, _ in s.assigns:
+            t_ = am.non_classification_view(t_)
+            if dm is None and any(x[0] == "call" and x[1][0] == "global" and x[1][1].endswith("get_dummies") for x in ir.walk(t_)):
+                dm = next(x for x in ir.walk(t_) if x[0] == "phi" and am._is_dummies(x) or (x[0] == "call" and x[1][0] == "global" and x[1][1].endswith("get_dummies")))
+        ctx.require(dm is not None, f"{f.where()}: get_dummies indicator not found")
         order = None
-        for x in ir.walk(au):
+        for x in ir.walk(dm):
             o = am.concat_order(x)
             if o is not None:
                 order = o
@@ -125,8 +131,6 @@ def check(ctx):
         ctx.ob("C02.R3.bootstrap-rows", f"{f.qualname}|indicator rows = concat(R, N, U)", ok, f.where(),
                "indicator matrix rows are reporting, nonreporting, unexpected units in this order" if ok
                else f"indicator matrix built from {[ir.show(o, maxdepth=2) for o in (order or [])]}")
-        dm = s.env.get("dummies")
-        keyed = dm is not None and all("get_dummies" in ir.show(x[1]) for x in ir.walk(dm) if x[0] == "call" and x[1][0] == "global")
         # columns of get_dummies are the sorted distinct keys; the key for several aggregates is the '_'-join in aggregate order
         joins = [x for x in ir.walk(dm) if x[0] == "call" and x[1][0] == "attr" and x[1][2] == "agg" and x[2] and x[2][0] == ("attr", ("const", "_"), "join")]
         okj = bool(joins) and all(j[1][1][0] == "sub" and j[1][1][2] == ("param", "aggregate") for j in joins)
